@@ -278,6 +278,10 @@ func (i idxField) SetValue(opts *options, elem value, v value) Error {
 	if opts != nil && int64(i.i) > opts.maxIdx {
 		return raiseIndexOutOfBounds(opts, elem, i.i)
 	}
+	if i.i+1 <= 0 {
+		// no list can hold the entry (the number of entries would overflow)
+		return raiseIndexOutOfBounds(opts, elem, i.i)
+	}
 
 	sub.c.fields.setAt(i.i, elem, v)
 	v.SetContext(context{parent: elem, field: i.String()})
